@@ -356,6 +356,31 @@ def _discharge_all(E, rep):
                 o.backend = (o.backend or "") + "+native-search"
                 o.reason = "solver: unknown; a failing input was found by running the real function (native counterexample search)"
                 o.replay = {"reproduced": True, "detail": w["observed"], "inputs": w["inputs"]}
+    # cross-check of the model against CPython: every post clause of the function is also evaluated natively on generated
+    # inputs; a clause that is false on the real function although its obligations were discharged means the engine's model
+    # (value semantics of containers, assumed contracts) hides a real violation
+    done_obls = [o for o in E.obls if o.status == "discharged" and o.func == E.cur and not E.cur.startswith("lemma:")
+                 and o.kind.startswith("post#") and getattr(o, "clause", None)]
+    if done_obls and E.cur in E.reg.contracts and not getattr(E.reg.contracts[E.cur], "no_crosscheck", False):
+        from .search import search
+        import os
+        seen = {}
+        for o in done_obls:
+            seen.setdefault(o.id, (o.id, "post", o.clause))
+        try:
+            found = search(E, E.reg, E.cur, E.reg.contracts[E.cur], list(seen.values()),
+                           seed=int(os.environ.get("VERIF_SEED", "0") or 0) + 1, tries=300 if E.tier == "thorough" else 60)
+        except Exception:
+            found = {}
+        E.crosschecked = len(seen)
+        for o in done_obls:
+            w = found.get(o.id)
+            if w is not None:
+                o.status = "refuted"
+                o.backend = (o.backend or "") + "+cpython-crosscheck"
+                o.reason = ("discharged by the solver, but the REAL function violates the clause on a concrete input: the model "
+                            "(value semantics / assumed contracts) does not capture this behaviour")
+                o.replay = {"reproduced": True, "detail": w["observed"], "inputs": w["inputs"]}
     for o in E.obls:
         rep.obligations.append({
             "id": o.id, "func": o.func, "kind": o.kind, "label": o.label, "status": o.status, "backend": o.backend,
